@@ -307,12 +307,46 @@ def extras(ctx):
                                                    'expected_peaks': [float(np.max(np.abs(b))) * sc for b in base[1]]})
 
 
+def extras_time(ctx):
+    """time-scale covariance: response(a, s*dt, s*T) = (s^2 u, s v, acc) for every s > 0 -- no absolute time constant (a 'period is zero'
+    tolerance, a smallest step) may enter.  Not bit-exact (w**3 goes through pow): 1e-9 of each row's peak."""
+    from eqsig import sdof
+    rng = ctx.rng
+    for it in range(6 if ctx.tier == 'quick' else 40):
+        n = rng.randint(8, 80)
+        dt = rng.choice([0.01, 0.005, 0.02])
+        a = gen.noise_record(rng, n)
+        periods = np.array(sorted(dt * r for r in rng.sample([5.0, 8.0, 20.0, 40.0, 100.0], rng.randint(1, 3))))
+        xi = rng.choice([0.0, 0.05, 0.3])
+        base = call_impl(sdof.response_series, a, dt, periods, xi)
+        if base[0] != 'ok':
+            continue
+        for k in (-30, -23, 30):
+            s = 2.0 ** k
+            ctx.hist(f'time-scale/2^{k}')
+            ctx.count_case(('timescale', a.tobytes(), dt, tuple(periods), xi, k), True)
+            r = call_impl(sdof.response_series, a, dt * s, periods * s, xi)
+            ok = r[0] == 'ok'
+            worst = None
+            if ok:
+                for name, got, want, f in zip('uva', r[1], base[1], (s * s, s, 1.0)):
+                    for j in range(len(periods)):
+                        pk = float(np.max(np.abs(want[j])))
+                        e = float(np.max(np.abs(np.asarray(got[j]) / f - want[j])))
+                        if e > 1e-9 * max(pk, 1e-300):
+                            ok = False
+                            worst = {'series': name, 'row': j, 'error': e, 'peak': pk}
+            ctx.oracle('C01 time-scale covariance: response(a, s dt, s T) == (s^2 u, s v, a_osc) (1e-9 of the row peak), also for steps around 1e-11 s / 1e+7 s', ok,
+                       {'a': a, 'dt': dt, 'periods': periods, 'xi': xi, 'time_scale': f'2**{k}'}, detail=worst if r[0] == 'ok' else r)
+
+
 _run_main = run
 
 
 def run(ctx):
     _run_main(ctx)
     extras(ctx)
+    extras_time(ctx)
     ctx.flush()
 
 
